@@ -1162,21 +1162,30 @@ def op_submesh(S, mesh, op, rs, labels, sigp):
     for part in got:
         pF = np.array(part.faces)
         check(_edge_watertight(pF), sigp + "|only_watertight|part_not_watertight", f"returned part with faces {pF[:6].tolist()} is not watertight")
-        # find the item it came from: the next one whose faces are a prefix
+        # find the item it came from: a later item of the sequence whose faces are a prefix of the part. Items can be
+        # geometrically identical (repeated faces, duplicated vertices), so among the fitting ones the first whose
+        # attached data track as well is taken; if none does, the failure against the first fitting item is reported
         pT = np.array(part.vertices)[pF]
-        found = None
-        while k < len(real):
-            idx = real[k]
-            k += 1
-            if len(idx) <= len(pF) and all(_b(pT[j]) == _b(S.T[int(idx[j])]) for j in range(len(idx))):
-                found = idx
+        fits = [kk for kk in range(k, len(real)) if len(real[kk]) <= len(pF) and all(_b(pT[j]) == _b(S.T[int(real[kk][j])]) for j in range(len(real[kk])))]
+        check(len(fits) > 0, sigp + "|only_watertight|part_not_from_sequence", f"returned part with faces {pF[:6].tolist()} matches no remaining item of the sequence")
+        chosen, first_err = None, None
+        for kk in fits:
+            want = [int(i) for i in real[kk]]
+            sub = _Prefix(part, len(want))
+            o_ = Opt()
+            try:
+                oV_, oF_, fo_, vo_, o_.suffix = read_output(sub, S, sigp, False)
+                track(S, oV_, oF_, fo_, vo_, want, o_, sigp)
+                chosen = kk
                 break
-        check(found is not None, sigp + "|only_watertight|part_not_from_sequence", f"returned part with faces {pF[:6].tolist()} matches no remaining item of the sequence")
-        want = [int(i) for i in found]
+            except Violation as v:
+                first_err = first_err or v
+        if chosen is None:
+            raise first_err
+        k = chosen + 1
         nextra = len(pF) - len(want)
         if nextra:
             labels.append("effect:filled_extra_faces")
-        sub = _Prefix(part, len(want))
         outs.append((sub, want, Opt(), None))
     return outs
 
